@@ -293,6 +293,36 @@ theorem derive_not_safe : ¬ ∀ ops, Safe (World.run .derived {} ops) := by
 example : ∃ c, (World.run .manual w0 witness).get 1 = some c ∧ c.ix.selfContained = true ∧
     c.readable (World.run .manual w0 witness).heap = true := by decide
 
+/-! ### what still holds for the derived `Clone` (the `_partial` statement for the current tree) -/
+
+def cloneFree : Op → Bool
+  | .clone _ _ => false
+  | .cloneFrom _ _ => false
+  | _ => true
+
+theorem step_cloneFree (ck : CloneKind) (w : World) {op : Op} (h : cloneFree op = true) :
+    World.step ck w op = World.step .manual w op := by
+  cases op <;> first | rfl | (simp [cloneFree] at h)
+
+/-- `no_dangling_partial`: whatever `Clone` the source defines, every history WITHOUT `clone` /
+`clone_from` — inserts, removals, growth across any number of reallocations, drops, swaps, moves,
+Box, mem::take, iteration, on any number of stores — is safe.  The full statement (`no_dangling`,
+all histories) needs the manual `Clone`; for the derived one it is refuted (`derive_clone_dangles`). -/
+theorem no_dangling_partial (ck : CloneKind) (ops : List Op) (h : ops.all cloneFree = true) :
+    Safe (World.run ck {} ops) := by
+  have : World.run ck {} ops = World.run .manual {} ops := by
+    generalize ({} : World) = w
+    induction ops generalizing w with
+    | nil => rfl
+    | cons op ops ih =>
+      simp only [List.all_cons, Bool.and_eq_true] at h
+      simp only [World.run, List.foldl_cons] at ih ⊢
+      rw [step_cloneFree ck w h.1]
+      exact ih h.2 _
+  rw [this]; exact no_dangling ops
+
+example : [Op.new 0 tiShape 9, .ens 0 (.iri ['x']), .take 0 1, .drop 0, .readAll 1].all cloneFree = true := by decide
+
 /-! ### the property over the GENERATED clone kind -/
 
 /-- `c10_holds`: if the source defines `Clone for SimpleTermIndex` manually (the shape recognised by
